@@ -960,39 +960,28 @@ inductive IntLit : Bytes → Bool → Nat → Prop
   | minus (pre lit post : Bytes) (n : Nat) : IsBlanks pre → IsBlanks post →
       specNumber lit = some n → IntLit (pre ++ 45 :: lit ++ post) true n
 
-/-- `Reaches get d n neg k`: following at most `d` names from variable `n` ends in an unset/empty
-    variable (`k = 0`) or in an integer literal. -/
-inductive Reaches (get : Bytes → Bytes) : Nat → Bytes → Bool → Nat → Prop
-  | unset (n : Bytes) : get n = [] → Reaches get 0 n false 0
-  | lit (n : Bytes) (neg : Bool) (k : Nat) : IntLit (get n) neg k → Reaches get 0 n neg k
-  | step (d : Nat) (n : Bytes) (neg : Bool) (k : Nat) : validName (get n) = true →
-      Reaches get d (get n) neg k → Reaches get (d + 1) n neg k
+/-- The value is expression text: not number-like for `arithmNumberLike`, and it lexes and parses
+    completely (bash: no syntax error) to a grammatical tree whose constants are valid. -/
+def ExprText (v : Bytes) : Prop :=
+  numberLike v = false ∧ ∃ e', parseText v = some (some e') ∧ WF e' = true ∧ LitsOK e'
 
-/-- "Every variable value is an integer literal or a name chain (at most 97 links) ending in one." -/
-def EnvOK (env : Env) : Prop :=
-  ∀ n, validName n = true → ∃ d neg k, d ≤ 97 ∧ Reaches env.get d n neg k
+/-- "Variables hold nothing, an integer literal, a name, or an expression." -/
+def ValOK (v : Bytes) : Prop :=
+  v = [] ∨ (∃ neg k, IntLit v neg k) ∨ validName v = true ∨ ExprText v
 
-/-- Targets of `op=`, `++`, `--` hold a literal or nothing (not a name). -/
-def LvalsOK (get : Bytes → Bytes) : Expr → Prop
-  | .word _ => True
-  | .paren x => LvalsOK get x
-  | .unary op _ x =>
-    if op = .inc ∨ op = .dec then
-      match wordOf x with
-      | some n => get n = [] ∨ ∃ neg k, IntLit (get n) neg k
-      | none => True
-    else LvalsOK get x
-  | .binary op x y =>
-    (if (assignOp op).isSome then
-      match wordOf x with
-      | some n => get n = [] ∨ ∃ neg k, IntLit (get n) neg k
-      | none => True
-    else LvalsOK get x) ∧ LvalsOK get y
+def EnvOK (env : Env) : Prop := ∀ n, ValOK (env.get n)
 
 /-- Results on which the specification pronounces (inside the property's domain). -/
 def Res.inDomain : Res → Prop
   | .err .outOfDomain => False
   | .err .fuel => False
+  | _ => True
+
+/-- … and which do not hit the nesting limit (bash: 1024 levels; the code: 99 names / 100 texts). -/
+def Res.good : Res → Prop
+  | .err .outOfDomain => False
+  | .err .fuel => False
+  | .err .recursion => False
   | _ => True
 
 end ShVerif.C20
